@@ -351,17 +351,10 @@ func checkFaulty(base, got []stepResult, label string) error {
 	return nil
 }
 
-func checkCase(c *Case) error {
-	p := &c.Prog
-	res := p.Run(p.NewSink())
-	if res.WriterErr != nil {
-		return fmt.Errorf("fault-free write failed at %s: %v", res.ErrAt, res.WriterErr)
-	}
-	data := res.Data
-	c.fileLen = len(data)
-	pw := p.Passwords()[0]
-
-	// ---- reader side ----
+// readerFaults enumerates every ReadAt call index of the read scenario over
+// data, in every fault shape and error-handling mode, and compares each call
+// with the fault-free run.
+func readerFaults(data []byte, pw string, extraRefs []pdf.Reference, kind string, cs any, reads, scenarios *int) error {
 	for mi, mode := range modes {
 		clean := &faultyReaderAt{data: data}
 		base, r0 := runScenario(clean, int64(len(data)), mode, pw, nil)
@@ -373,7 +366,7 @@ func checkCase(c *Case) error {
 		for _, r := range refs {
 			seen[r] = true
 		}
-		for _, r := range res.Unwritten {
+		for _, r := range extraRefs {
 			if !seen[r] {
 				refs = append(refs, r)
 			}
@@ -382,7 +375,7 @@ func checkCase(c *Case) error {
 		base, _ = runScenario(clean, int64(len(data)), mode, pw, refs)
 		n := clean.calls
 		if mi == 0 {
-			c.reads = n
+			*reads = n
 		}
 		for _, st := range base {
 			if st.err != nil {
@@ -400,16 +393,33 @@ func checkCase(c *Case) error {
 				if !finished {
 					if !replaying {
 						// no shrinking: every attempt would take minutes
-						vt.Fatal(property, "c19-document", c, fmt.Sprintf("%s: the scenario does not terminate (still running after %v and again after %v)", label, suspectAfter, confirmAfter))
+						vt.Fatal(property, kind, cs, fmt.Sprintf("%s: the scenario does not terminate (still running after %v and again after %v)", label, suspectAfter, confirmAfter))
 					}
 					return fmt.Errorf("%s: the scenario does not terminate (fault-free run takes milliseconds; still running after %v and again after %v)", label, suspectAfter, confirmAfter)
 				}
-				c.scenarios++
+				*scenarios++
 				if err := checkFaulty(base, got, label); err != nil {
 					return err
 				}
 			}
 		}
+	}
+	return nil
+}
+
+func checkCase(c *Case) error {
+	p := &c.Prog
+	res := p.Run(p.NewSink())
+	if res.WriterErr != nil {
+		return fmt.Errorf("fault-free write failed at %s: %v", res.ErrAt, res.WriterErr)
+	}
+	data := res.Data
+	c.fileLen = len(data)
+	pw := p.Passwords()[0]
+
+	// ---- reader side ----
+	if err := readerFaults(data, pw, res.Unwritten, "c19-document", c, &c.reads, &c.scenarios); err != nil {
+		return err
 	}
 
 	// ---- writer side ----
